@@ -57,7 +57,8 @@ type Case struct {
 	Keep   int    `json:"keep"`   // Visvalingam points to keep
 	Factor int    `json:"factor"` // orb.Round factor, 0 = default (argument omitted)
 	SRID   int    `json:"srid"`
-	Proj   string `json:"proj"` // toMercator | toWGS84 | affine
+	Proj   string `json:"proj"`   // toMercator | toWGS84 | affine
+	Layout string `json:"layout"` // memory layout of the argument of the read-only functions: shared | spare | plain (see layout_test.go)
 }
 
 // tolerances (all stated here)
@@ -71,19 +72,25 @@ type env struct {
 	c    Case
 	g    orb.Geometry // pristine input, never handed to orb
 	snap string
-	ro   orb.Geometry // shared copy handed to the read-only functions
+	ro   orb.Geometry // copy handed to the read-only functions, laid out as c.Layout says
+	gd   *guard       // watches the whole backing arrays of ro, spare capacity included
 	mod  bool         // all coordinates moderate
 	box  orb.Bound
 }
 
 func (e *env) fresh() orb.Geometry { return deepCopy(e.g) }
 
+func (e *env) newRO() { e.ro, e.gd = layOut(e.g, e.c.Layout) }
+
 func (e *env) unchanged(fn string) error {
 	if s := snapshot(e.ro); s != e.snap {
-		e.ro = e.fresh()
 		after := show(e.ro)
-		e.ro = e.fresh()
+		e.newRO()
 		return fmt.Errorf("%s modified its argument: before %s after %s", fn, show(e.g), after)
+	}
+	if err := e.gd.check(); err != nil {
+		e.newRO()
+		return fmt.Errorf("%s wrote into memory of its argument (%s layout): %v; argument %s", fn, e.c.Layout, err, show(e.g))
 	}
 	return nil
 }
@@ -134,7 +141,7 @@ func checkCase(c Case) error { return checkCaseOnly(c, nil) }
 func checkCaseOnly(c Case, only map[string]bool) error {
 	e := &env{c: c, g: c.G.V, box: c.Box.Bound()}
 	e.snap = snapshot(e.g)
-	e.ro = e.fresh()
+	e.newRO()
 	e.mod = maxAbs(e.g, c.Q.Pt(), e.box.Min, e.box.Max) <= moderate
 	for _, ck := range checks {
 		if only != nil && !only[ck.name] {
